@@ -57,7 +57,7 @@ pub fn tab_json(c: &TabCase) -> Value {
     json!({"set": c.set, "names": c.names, "line": c.line, "cursor": c.cursor, "cmd_buf": c.cap, "prompt": c.prompt, "partial": c.partial})
 }
 
-fn tab_from(v: &Value) -> TabCase {
+pub fn tab_from(v: &Value) -> TabCase {
     TabCase {
         set: v["set"].as_str().unwrap_or("tl").to_string(),
         names: v["names"].as_array().map(|a| a.iter().map(|s| s.as_str().unwrap_or("").to_string()).collect()).unwrap_or_default(),
@@ -336,7 +336,7 @@ fn run_shard(ctx: &ShardCtx) {
     }
 }
 
-fn macro_case_strategy(names: Vec<String>) -> impl Strategy<Value = TabCase> {
+pub fn macro_case_strategy(names: Vec<String>) -> impl Strategy<Value = TabCase> {
     (line_for(names), 0usize..5).prop_map(|((names, line, cur, extra), prompt)| {
         let n = line.chars().count();
         TabCase {
@@ -351,7 +351,7 @@ fn macro_case_strategy(names: Vec<String>) -> impl Strategy<Value = TabCase> {
     })
 }
 
-fn obs_from_reply(r: &Value) -> vmodel::genrun::TabObs {
+pub fn obs_from_reply(r: &Value) -> vmodel::genrun::TabObs {
     vmodel::genrun::TabObs {
         fit: r["fit"].as_bool().unwrap_or(false),
         pre_cursor: r["pre_cursor"].as_u64().unwrap_or(0) as usize,
